@@ -2233,6 +2233,8 @@ class StateEngine(object):
                     # Change the \ escape to fnmatch [seq] escape and also
                     # escape [ to allow things like a literal [hello]
                     value = value.replace("[", "[[]").replace("\\*", "[*]")
+                    # Also escape ? as * is the only wildcard StringMatches allows.
+                    value = value.replace("?", "[?]")
                     if fnmatch.fnmatch(variable, value):
                         return next
 
